@@ -138,7 +138,7 @@ func deepArr(n int) *V {
 var DeepLevels = 1000
 
 // Kinds lists every mutation kind.
-var Kinds = []string{"allof-cycle-inline", "allof-cycle-direct", "self-array", "self-array-of-array", "self-object", "self-map", "self-sum", "path-template-error", "delete", "null", "retype-scalar", "retype-map", "retype-seq", "num-string", "duplicate-key", "rename-collide", "break-escape", "dangling-ref", "self-ref", "huge-number", "negative-number", "big-integer", "deep-nesting", "deep-array", "empty-map", "empty-string", "long-string",
+var Kinds = []string{"allof-cycle-inline", "allof-cycle-direct", "self-array", "self-array-of-array", "self-object", "self-map", "self-sum", "tuple-null-item", "additional-properties-true", "enum-replacement-char", "path-template-error", "delete", "null", "retype-scalar", "retype-map", "retype-seq", "num-string", "duplicate-key", "rename-collide", "break-escape", "dangling-ref", "self-ref", "huge-number", "negative-number", "big-integer", "deep-nesting", "deep-array", "empty-map", "empty-string", "long-string",
 	// response keys outside the forms 100..599, 1XX..5XX, default
 	"response-code:0XX", "response-code:6XX", "response-code:9XX", "response-code:XXX", "response-code:2xx", "response-code:99", "response-code:1000", "response-code:2X", "response-code:٢٠٠", "response-code:-1", "response-code:2XXX", "response-code:Default"}
 
@@ -259,6 +259,31 @@ func At(root *V, p doctree.Path, kind string) *Mutant {
 			if nv, err := jsonv.Parse([]byte(txt)); err == nil {
 				ok = setAt(t, p, nv)
 			}
+		}
+	case "tuple-null-item":
+		// items: <schema>  ->  items: [null, <schema>] (a tuple whose first element is the null/empty schema)
+		if orig.Kind == jsonv.Object && p[len(p)-1] == "items" {
+			ok = setAt(t, p, jsonv.NewArray(jsonv.NewNull(), orig.Clone()))
+		}
+	case "additional-properties-true":
+		// an object schema with declared properties additionally admits arbitrary members
+		if orig.Kind == jsonv.Object && orig.Get("properties") != nil && (p[len(p)-1] == "schema" || (len(p) == 3 && p[0] == "components" && p[1] == "schemas")) {
+			c := orig.Clone()
+			var keep []jsonv.Member
+			for _, m := range c.Members {
+				if m.Name != "additionalProperties" {
+					keep = append(keep, m)
+				}
+			}
+			c.Members = append(keep, jsonv.Member{Name: "additionalProperties", Value: jsonv.NewBool(true)})
+			ok = setAt(t, p, c)
+		}
+	case "enum-replacement-char":
+		// a string enum gets a member that starts with U+FFFD (a legal character, not a decoding error)
+		if orig.Kind == jsonv.Array && p[len(p)-1] == "enum" && len(orig.Elems) > 0 && orig.Elems[0].Kind == jsonv.String {
+			c := orig.Clone()
+			c.Elems = append([]*V{jsonv.NewString("\uFFFDzz9")}, c.Elems...)
+			ok = setAt(t, p, c)
 		}
 	case "response-code:0XX", "response-code:6XX", "response-code:9XX", "response-code:XXX", "response-code:2xx", "response-code:99", "response-code:1000", "response-code:2X", "response-code:٢٠٠", "response-code:-1", "response-code:2XXX", "response-code:Default":
 		if parent != nil && parent.Kind == jsonv.Object && len(parentPath) >= 1 && parentPath[len(parentPath)-1] == "responses" {
